@@ -37,6 +37,7 @@ type FCmd struct {
 	SkewNS int64 `json:"skew_ns,omitempty"`
 	Cuts   []int `json:"cuts,omitempty"`
 	Reps   int   `json:"reps,omitempty"`
+	Late   int   `json:"late,omitempty"` // C02: commands applied between FSM.Snapshot() and Persist()
 
 	raw []byte
 }
